@@ -122,18 +122,20 @@ Definition ikesa_process_acquire (state_ready : bool) (protect : list entry) (in
 Definition kernel_index_of (e : entry) : Z := (policy_out_index (e_index e) mod 2 ^ 32)%Z.
 
 (** ---- IkeSaController.process_acquire: which IKE_SA handles an ACQUIRE for (my_addr, peer_addr).
-    The table is the list of (my_addr, peer_addr) of self.ike_sas; the lookup condition is GENERATED. *)
+    The table is the list of (my_addr, peer_addr, state) of self.ike_sas; the lookup condition and the set of
+    states that are passed over (an IKE_SA being replaced or closed, fix 1753c24) are GENERATED. *)
 Definition ip_eqb (a b : ip) : bool := Z.eqb (ip_version a) (ip_version b) && listN_eqb (ip_packed a) (ip_packed b).
 
 Inductive ike_sa_pick := PickExisting (position : nat) | PickNewInitiator (my_addr peer_addr : ip).
 
-Fixpoint find_ike_sa (table : list (ip * ip)) (my peer : ip) (n : nat) : option nat :=
+Fixpoint find_ike_sa (table : list (ip * ip * Z)) (my peer : ip) (n : nat) : option nat :=
   match table with
   | [] => None
-  | (m, p) :: rest => if ike_sa_match (ip_eqb m my) (ip_eqb p peer) then Some n else find_ike_sa rest my peer (S n)
+  | (m, p, st) :: rest => if ike_sa_match (ip_eqb m my) (ip_eqb p peer) (ike_sa_usable st) then Some n
+                          else find_ike_sa rest my peer (S n)
   end.
 
-Definition pick_ike_sa (table : list (ip * ip)) (my peer : ip) : ike_sa_pick :=
+Definition pick_ike_sa (table : list (ip * ip * Z)) (my peer : ip) : ike_sa_pick :=
   match find_ike_sa table my peer 0 with
   | Some n => PickExisting n                 (* re-use *)
   | None => PickNewInitiator my peer         (* StopIteration: IkeSa(is_initiator=True, my_addr, peer_addr), appended *)
